@@ -6,6 +6,7 @@ func init() {
 		Technique:   "finite-case evaluation of the sanitiser per rune class (abstract interpretation over comparison-constant intervals plus non-ASCII representatives), must-pass-through-sanitiser rule at every site where an external key becomes a label",
 		Explanation: "Decides, given the induction of DESIGN.md A.2, that KeyToLabel's per-character behaviour table is the one that yields valid names, identity on valid names and idempotence; that the lexer's identifier alphabet is the same ASCII alphabet; and that every Docker label key, record attribute key and JSON key becomes a label only through KeyToLabel, with Docker labels stored under the sanitised key with their own value.",
 		Decided: []string{
+			"PV-WHOLE (shared with C02): the daemon is not asked to pre-filter containers by label names it does not know; the Docker matcher reads a missing label as \"\"",
 			"CH-MAP: lexer.tokens and TokenType.IsFunction: names that spell a function stay usable as label names",
 			"FE-CLASS: KeyToLabel fast/slow tables over 29 rune representatives x {first, not first}; exits return the key unchanged / the built label",
 			"FE-CLASS: lexerql.IsIdentStartRune / IsIdentRune / IsDigit / IsLetter are exactly the ASCII classes; IsValidLabel applies them to first/rest and rejects the empty name",
